@@ -68,4 +68,16 @@ UNext == \/ UpsertNothing(URows) \/ UpsertUpdate(URows, USets)
          \/ \E i \in Ids : Stmt([k |-> "delete", p |-> [k |-> "eq", c |-> "id", v |-> i]], DoDelete(rows, [k |-> "eq", c |-> "id", v |-> i]))
          \/ Reopen
 USpec == UInit /\ [][UNext]_vars
+
+(***************************************************************************)
+(* Statements that are wrong in themselves (C06): from the same two-row    *)
+(* table, every kind of Bad statement, with inserts, deletes, updates and  *)
+(* reopen around them.                                                     *)
+(***************************************************************************)
+BNext == \/ Bad
+         \/ \E r \in {Row(3, N, 0), Row(1, 2, 1)} : Stmt([k |-> "insert", rows |-> <<r>>], DoInsert(rows, <<r>>))
+         \/ \E i \in Ids : Stmt([k |-> "delete", p |-> [k |-> "eq", c |-> "id", v |-> i]], DoDelete(rows, [k |-> "eq", c |-> "id", v |-> i]))
+         \/ Stmt([k |-> "update", c |-> "b", v |-> 1, p |-> [k |-> "all", c |-> "id", v |-> 0]], DoUpdate(rows, "b", 1, [k |-> "all", c |-> "id", v |-> 0]))
+         \/ Reopen
+BSpec == UInit /\ [][BNext]_vars
 =============================================================================
